@@ -526,10 +526,25 @@ def r_multi_order(ck: Checker) -> None:
         form = None
         for il in inner:
             done = [st for st in il.stmts if isinstance(st, ast.Assign) and isinstance(st.value, ast.Call) and isinstance(st.value.func, ast.Attribute) and st.value.func.attr == "match"]
-            if not done or norm(done[0].value) != f"{table}[{r}].match({np_})":
+            if not done and il.outcome == "continue" and (set(il.assign) - {okv}):
+                pass  # decided below (a rule skipped without being tried)
+            elif not done or norm(done[0].value) != f"{table}[{r}].match({np_})":
                 problems.append(f"rule {r} is matched with {[norm(d.value)[:50] for d in done]}")
             if set(il.assign) - {okv}:
-                raise Unsupported(f"MultiPatternMatcher.match: loop decides on {sorted(il.assign)}", lp)
+                extra = sorted(set(il.assign) - {okv})
+                # a positive pattern: a rule is skipped on an *exact* class test (the matcher itself accepts subclasses: isinstance)
+                gates = [k for k in extra if k.startswith("in(") and ".types" in k]
+                exact = [k for k in gates if k.startswith("in(type(") or k.startswith("in(" + np_ + ".__class__")]
+                if exact and set(gates) == set(extra):
+                    if not done and il.outcome == "continue":
+                        problems.append(f"a rule is skipped when {exact[0][3:-1].replace(',', ' is not in ', 1)} (exact class): nodes of a subclass never reach the rules "
+                                        "written for their base class")
+                        continue
+                    if not done:
+                        raise Unsupported(f"MultiPatternMatcher.match: loop decides on {sorted(il.assign)}", lp)
+                    # the rule is tried on this path: the gate only matters where it skips
+                else:
+                    raise Unsupported(f"MultiPatternMatcher.match: loop decides on {sorted(il.assign)}", lp)
             if okv not in il.assign:
                 problems.append("the match result is not consulted")
             elif il.assign[okv]:
@@ -591,6 +606,8 @@ def run(ck: Checker) -> None:
     ck.guard("R-POSTINIT-IDEMP", lambda: r_postinit_idemp(ck))
     ck.guard("R-PURE-MATCH", lambda: r_pure_match(ck))
     ck.guard("R-MULTI-ORDER", lambda: r_multi_order(ck))
+    from .c17 import r_no_memo
+    ck.guard("R-NO-MEMO", lambda: r_no_memo(ck))  # what a pattern matches must not depend on which names were looked up earlier
     ck.require_count("R-NODE-EQ", 2)
     ck.require_count("R-ZIPGUARD", 2)
     ck.require_count("R-TYPES-ALL", 3)
